@@ -109,6 +109,7 @@ def jobs(seed=0):
         j.timeout = 3000
         J.append(j)
     J += rot_vec_jobs(seed)
+    J += big_jobs(seed)
     NQ4 = [(1, 4)]
     for n, (rs, as_) in enumerate(NQ4):
         sp = stride_pick(seed, 2, n)
@@ -173,4 +174,60 @@ def rot_vec_jobs(seed=0):
                 j.cbmc_flags = j.cbmc_flags + ["--no-signed-overflow-check"]
                 j.bound_note += "; in-place kernel contract assumed (bounded S4 evidence)"
                 J.append(j)
+    return J
+
+
+# ---------------------------------------------------------------------------------------------------------------
+# fft64 big-coefficient wrappers (arithmetic/vec_znx_big.c): forwarding proofs against the dispatcher contracts
+
+BIG3 = {  # name: (function, contract, callee, callee contract, a is small, b is small)
+    "big_add": ("fft64_vec_znx_big_add", "big_add__c", "vec_znx_add", "vec_znx_add__c", False, False),
+    "big_sub": ("fft64_vec_znx_big_sub", "big_sub__c", "vec_znx_sub", "vec_znx_sub__c", False, False),
+    "big_add_small": ("fft64_vec_znx_big_add_small", "big_add_small__c", "vec_znx_add", "vec_znx_add__c", False, True),
+    "big_sub_small_b": ("fft64_vec_znx_big_sub_small_b", "big_sub_small_b__c", "vec_znx_sub", "vec_znx_sub__c", False, True),
+    "big_sub_small_a": ("fft64_vec_znx_big_sub_small_a", "big_sub_small_a__c", "vec_znx_sub", "vec_znx_sub__c", True, False),
+    "big_add_small2": ("fft64_vec_znx_big_add_small2", "big_add_small2__c", "vec_znx_add", "vec_znx_add__c", True, True),
+    "big_sub_small2": ("fft64_vec_znx_big_sub_small2", "big_sub_small2__c", "vec_znx_sub", "vec_znx_sub__c", True, True),
+}
+
+
+def big_jobs(seed=0):
+    J = []
+    shapes = [(2, 2, 2), (2, 1, 3), (3, 2, 1), (1, 3, 2), (2, 0, 1), (0, 1, 1), (1, 1, 0)]
+    for nm, (fn, c, callee, cc, asmall, bsmall) in BIG3.items():
+        for n, (rs, as_, bs) in enumerate(shapes):
+            for alias in (0, 1, 2):
+                if alias and n > 2:
+                    continue
+                if alias == 1 and (asmall and False):
+                    continue
+                am, aa = (STRIDES[(seed + n + 1) % 3] if asmall else (1, 0))
+                bm, ba = (STRIDES[(seed + n + 2) % 3] if bsmall else (1, 0))
+                if asmall and bsmall and (am, aa) == (bm, ba):
+                    bm, ba = STRIDES[(STRIDES.index((am, aa)) + 1) % 3]   # different strides expose a swapped stride
+                if alias == 1:
+                    am, aa = 1, 0
+                if alias == 2:
+                    bm, ba = 1, 0
+                rext = max(rs, as_) if alias == 1 else (max(rs, bs) if alias == 2 else rs)
+                d = {"RS": rs, "AS": as_, "BS": bs, "REXT": rext, "RM": 1, "RA": 0, "AM": am, "AA": aa, "BM": bm, "BA": ba, "ALIAS": alias}
+                J.append(Job(name="big.%s.r%da%db%d.s%d%d_%d%d.al%d" % (nm, rs, as_, bs, am, aa, bm, ba, alias),
+                             props=["C08", "C13", "C11", "C18", "C15"], shape="S3", sources=["arithmetic/vec_znx_big.c"],
+                             harness="vec_big.c", entry="h_" + nm, enforce=[(fn, c)], replace=[(callee, cc)], defines=d,
+                             functions=[fn], timeout=600,
+                             bound_note="limb counts (%d,%d,%d), small strides N*%d+%d/N*%d+%d, alias %d; callee = dispatcher slot contract"
+                                        % (rs, as_, bs, am, aa, bm, ba, alias), replay={"driver": "vec_big", "fn": fn}))
+    for nm, fn, c, callee, cc in (("big_rotate", "fft64_vec_znx_big_rotate", "big_rotate__c", "vec_znx_rotate", "vec_znx_rotate__c"),
+                                  ("big_automorphism", "fft64_vec_znx_big_automorphism", "big_automorphism__c", "vec_znx_automorphism", "vec_znx_automorphism__c")):
+        for (rs, as_) in [(2, 2), (1, 2), (2, 1), (0, 1), (3, 0)]:
+            for alias in (0, 1):
+                if alias and rs * as_ == 0:
+                    continue
+                rext = max(rs, as_) if alias == 1 else rs
+                d = {"RS": rs, "AS": as_, "REXT": rext, "RM": 1, "RA": 0, "AM": 1, "AA": 0, "ALIAS": alias}
+                J.append(Job(name="big.%s.r%da%d.al%d" % (nm, rs, as_, alias), props=["C09", "C08", "C13", "C11", "C18"], shape="S3",
+                             sources=["arithmetic/vec_znx_big.c"], harness="vec_big.c", entry="h_" + nm, enforce=[(fn, c)],
+                             replace=[(callee, cc)], defines=d, functions=[fn], timeout=600,
+                             cbmc_flags=["--no-signed-overflow-check"],
+                             bound_note="limb counts (%d,%d), alias %d" % (rs, as_, alias), replay={"driver": "vec_big", "fn": fn}))
     return J
